@@ -261,7 +261,7 @@ func Mutants(doc M, seed int64, max int) []Mutant {
 		}
 	}
 	// a recursive alias / array pair used as a query parameter, a header parameter and a body
-	for _, where := range []string{"query", "header", "body"} {
+	for _, where := range []string{"query", "header", "body", "resphdr", "query-items", "header-items", "resphdr-items", "resphdr-self"} {
 		where := where
 		add("recursive-array-alias-"+where, []string{"components", "schemas"}, func(d M) bool {
 			comps, ok := d["components"].(M)
@@ -281,11 +281,26 @@ func Mutants(doc M, seed int64, max int) []Mutant {
 				return false
 			}
 			op := M{"responses": M{"200": M{"description": "ok"}}}
-			switch where {
+			// the schema as used: the recursive component itself, or an inline
+			// array whose items are the recursive component
+			var use any = M{"$ref": "#/components/schemas/VerifTree"}
+			loc := where
+			if strings.HasSuffix(where, "-items") {
+				use = M{"type": "array", "items": M{"$ref": "#/components/schemas/VerifTree"}}
+				loc = strings.TrimSuffix(where, "-items")
+			}
+			if where == "resphdr-self" {
+				schemas["VerifSelf"] = M{"type": "array", "items": M{"$ref": "#/components/schemas/VerifSelf"}}
+				use = M{"$ref": "#/components/schemas/VerifSelf"}
+				loc = "resphdr"
+			}
+			switch loc {
 			case "body":
-				op["requestBody"] = M{"content": M{"application/json": M{"schema": M{"$ref": "#/components/schemas/VerifTree"}}}}
+				op["requestBody"] = M{"content": M{"application/json": M{"schema": use}}}
+			case "resphdr":
+				op["responses"] = M{"200": M{"description": "ok", "headers": M{"X-Tree": M{"schema": use}}}}
 			default:
-				op["parameters"] = L{M{"name": "tree", "in": where, "schema": M{"$ref": "#/components/schemas/VerifTree"}}}
+				op["parameters"] = L{M{"name": "tree", "in": loc, "schema": use}}
 			}
 			paths["/verif-recursive"] = M{"post": op}
 			return true
